@@ -31,8 +31,14 @@ LenOct(n) == IF n < 128 THEN <<n>> ELSE LET d == Digits(n) IN <<128 + Len(d)>> \
 
 (* every legal definite form of length n using at most MaxLenOct length octets *)
 MaxLenOct == 4
+(* ... and three padded ones beyond that: 8 length octets (the last that fits a 64-bit accumulator), 9 (the first that does
+   not) and 126 (the most X.690 8.1.3.5 allows) *)
+ExtraLenOct == {8, 9, 126}
+Padded(n, ks) == { <<128 + k>> \o Zeros(k - Len(Digits(n))) \o Digits(n) : k \in ks }
 AltLen(n) == (IF n < 128 THEN {<<n>>} ELSE {}) \cup
-             { <<128 + Len(Digits(n)) + p>> \o Zeros(p) \o Digits(n) : p \in 0..(MaxLenOct - Len(Digits(n))) }
+             { <<128 + Len(Digits(n)) + p>> \o Zeros(p) \o Digits(n) : p \in 0..(MaxLenOct - Len(Digits(n))) } \cup
+             Padded(n, {9})
+AltLenAll(n) == AltLen(n) \cup Padded(n, ExtraLenOct)         \* used for bare headers; trees get the 9-octet form only
 
 RECURSIVE Flat(_)
 Flat(ss) == IF ss = <<>> THEN <<>> ELSE Head(ss) \o Flat(Tail(ss))
@@ -55,6 +61,8 @@ Fold(s, p, n) == IF n = 0 THEN 0 ELSE Fold(s, p, n - 1) * 256 + s[p + n - 1]
 
 Bad == [ok |-> FALSE, p |-> 0, t |-> Prim(0, 0, <<>>)]
 
+RECURSIVE LeadZeros(_, _, _)
+LeadZeros(s, q, n) == IF n > 0 /\ s[q] = 0 THEN 1 + LeadZeros(s, q + 1, n - 1) ELSE 0
 RECURSIVE Dec(_, _), DecAll(_, _, _)
 Dec(s, p) ==
   IF p + 1 > Len(s) THEN Bad ELSE
@@ -64,12 +72,15 @@ Dec(s, p) ==
       num  == id % 32
       l0   == s[p + 1]
       nlen == IF l0 < 128 THEN 0 ELSE l0 - 128
+      \* leading zero octets of a long-form length carry no value (X.690 8.1.3.5 allows up to 126 length octets)
+      z    == IF l0 >= 128 /\ p + 1 + nlen <= Len(s) THEN LeadZeros(s, p + 2, nlen) ELSE 0
+      sig  == nlen - z
       okhdr == /\ num < 31
                /\ \/ l0 < 128
-                  \/ /\ nlen >= 1 /\ nlen <= MaxLenOct /\ p + 1 + nlen <= Len(s)
-                     /\ ~(nlen = 4 /\ s[p + 2] >= 64)
+                  \/ /\ nlen >= 1 /\ nlen <= 126 /\ p + 1 + nlen <= Len(s) /\ sig <= MaxLenOct
+                     /\ ~(sig = 4 /\ s[p + 2 + z] >= 64)
   IN IF ~okhdr THEN Bad ELSE
-     LET len  == IF l0 < 128 THEN l0 ELSE Fold(s, p + 2, nlen)
+     LET len  == IF l0 < 128 THEN l0 ELSE IF sig = 0 THEN 0 ELSE Fold(s, p + 2 + z, sig)
          c0   == p + 2 + nlen
          cend == c0 + len
      IN IF cend - 1 > Len(s) THEN Bad
